@@ -18,9 +18,19 @@ pub const BIG_LENS: &[u64] = &[
     (1 << 63) + 1,
     u64::MAX - 1,
     u64::MAX,
+    // decimal-width boundaries (a digit-counting slip shows only here)
+    999_999_999_999_999,
+    1_000_000_000_000_000,
+    9_999_999_999_999_999,
+    10_000_000_000_000_000,
+    99_999_999_999_999_999,
+    999_999_999_999_999_999,
+    1_000_000_000_000_000_000,
+    9_999_999_999_999_999_999,
+    10_000_000_000_000_000_000,
 ];
 
-pub const EDGE_LENS: &[u64] = &[0, 1, 2, 3, 10, 240, 1000, 4095, 4096, 4097, 65535, 65536, 65537];
+pub const EDGE_LENS: &[u64] = &[0, 1, 2, 3, 10, 240, 1000, 4095, 4096, 4097, 65535, 65536, 65537, 99, 100, 999, 9_999, 10_000, 99_999, 100_000];
 
 pub fn len_strategy() -> BoxedStrategy<u64> {
     prop_oneof![
@@ -35,7 +45,7 @@ pub fn len_strategy() -> BoxedStrategy<u64> {
 
 /// Lengths whose bodies are cheap to drain completely.
 pub fn small_len_strategy() -> BoxedStrategy<u64> {
-    prop_oneof![3 => 0u64..=16, 5 => 17u64..=3000, 1 => proptest::sample::select(&EDGE_LENS[..10])].boxed()
+    prop_oneof![3 => 0u64..=16, 5 => 17u64..=3000, 1 => proptest::sample::select(&EDGE_LENS[..10]), 1 => proptest::sample::select(&EDGE_LENS[13..])].boxed()
 }
 
 pub const OPAQUES: &[&[u8]] = &[b"foo", b"", b"a, b", b"x y", b"bar", b"\x80\xff", b"W/", b"*", b"foo,", b"1234567890abcdef"];
@@ -132,8 +142,8 @@ pub fn entity_headers_strategy() -> BoxedStrategy<Vec<(String, Bs)>> {
 }
 
 pub fn entity_strategy(lens: BoxedStrategy<u64>) -> BoxedStrategy<EntitySpec> {
-    (lens, etag_strategy(), mtime_strategy(), entity_headers_strategy(), plan_strategy())
-        .prop_map(|(len, etag, mtime, headers, plan)| EntitySpec {
+    (lens, etag_strategy(), mtime_strategy(), entity_headers_strategy(), plan_strategy(), prop_oneof![3 => Just(0u8), 1 => Just(2u8), 1 => Just(3u8)])
+        .prop_map(|(len, etag, mtime, headers, plan, segments)| EntitySpec {
             len,
             etag,
             mtime,
@@ -141,6 +151,7 @@ pub fn entity_strategy(lens: BoxedStrategy<u64>) -> BoxedStrategy<EntitySpec> {
             plan,
             faults: vec![],
             tail: vec![],
+            segments,
         })
         .boxed()
 }
@@ -154,6 +165,13 @@ pub fn pos_strategy(l: u64) -> BoxedStrategy<u128> {
     let near: Vec<u128> = [0u128, 1, 2, l / 2, l.saturating_sub(2), l.saturating_sub(1), l, l + 1, l + 2]
         .into_iter()
         .collect();
+    let mut pow10: Vec<u128> = Vec::new();
+    let mut p10 = 10u128;
+    while p10 <= l.max(10) && p10 < (1u128 << 64) {
+        pow10.push(p10 - 1);
+        pow10.push(p10);
+        p10 *= 10;
+    }
     let far: Vec<u128> = vec![
         1 << 32,
         (1 << 63) - 1,
@@ -166,6 +184,7 @@ pub fn pos_strategy(l: u64) -> BoxedStrategy<u128> {
         6 => proptest::sample::select(near),
         4 => 0u128..hi,
         1 => proptest::sample::select(far),
+        1 => proptest::sample::select(pow10),
     ]
     .boxed()
 }
@@ -179,10 +198,19 @@ pub fn spec_string(l: u64, with_beyond: bool) -> BoxedStrategy<String> {
         }
     };
     prop_oneof![
-        4 => (p(), p()).prop_map(|(a, b)| { let (a, b) = if a <= b { (a, b) } else { (b, a) }; format!("{a}-{b}") }),
-        1 => (p(), p()).prop_map(|(a, b)| format!("{a}-{b}")),
-        2 => p().prop_map(|a| format!("{a}-")),
-        2 => p().prop_map(|n| format!("-{n}")),
+        8 => (p(), p()).prop_map(|(a, b)| { let (a, b) = if a <= b { (a, b) } else { (b, a) }; format!("{a}-{b}") }),
+        2 => (p(), p()).prop_map(|(a, b)| format!("{a}-{b}")),
+        4 => p().prop_map(|a| format!("{a}-")),
+        4 => p().prop_map(|n| format!("-{n}")),
+        // zero-padded spellings (1*DIGIT allows leading zeros), up to 26 characters wide
+        1 => (p(), p(), 1usize..27, 0u8..3).prop_map(|(a, b, w, which)| {
+            let (a, b) = if a <= b { (a, b) } else { (b, a) };
+            match which {
+                0 => format!("{a:0w$}-{b}"),
+                1 => format!("{a}-{b:0w$}"),
+                _ => format!("-{b:0w$}"),
+            }
+        }),
     ]
     .boxed()
 }
